@@ -409,7 +409,7 @@ theorem visitKD_nd {st st' : CState} {kd : KeptOrDest} {c : Code} (h : visitKD s
   | kept =>
     simp only [visitKD, Except.ok.injEq, Prod.mk.injEq] at h
     obtain ⟨_, rfl⟩ := h; exact NdEq.refl _
-  | to d =>
+  | «to» d =>
     simp only [visitKD] at h
     exact visitDest_nd h
 theorem visitCaps_nd {st st' : CState} {cs : CapList} {c : Code} (h : visitCaps st cs = .ok (c, st')) : NdEq st st' := by
